@@ -308,6 +308,23 @@ pub fn program_trees(level: u32) -> Vec<Ast> {
             push(&Ast::Stmt(vec![(*t1).clone(), (*t2).clone()]), &mut out);
         }
     }
+    // wide nodes: lists, calls, maps, chains and operator chains of 4..65 elements
+    for n in [4usize, 5, 8, 9, 16, 17, 33, 65] {
+        let leaf = |i: usize| rot[i % rot.len()].clone();
+        let items: Vec<Ast> = (0..n).map(leaf).collect();
+        out.push(Ast::List(items.clone()));
+        out.push(Ast::Func("f".into(), items.clone()));
+        out.push(Ast::Stmt(items.clone()));
+        out.push(Ast::Map((0..n).map(|i| (leaf(2 * i), leaf(2 * i + 1))).collect()));
+        let mut left = leaf(0);
+        let mut right = leaf(n - 1);
+        for i in 1..n {
+            left = Ast::Binary(if i % 2 == 0 { "+".into() } else { "-".into() }, Box::new(left), Box::new(leaf(i)));
+            right = Ast::Binary("=".into(), Box::new(Ast::Ref(format!("v{}", n - 1 - i))), Box::new(right));
+        }
+        out.push(left);
+        out.push(right);
+    }
     out.push(Ast::Stmt(vec![]));
     out
 }
